@@ -290,5 +290,7 @@ def manifest():
         }],
         'checks': checks,
         'not_applicable': sorted(na, key=lambda x: x['property_id']),
-        'notes': 'Generated by tools_manifest.py from vt/registry.py.',
+        'notes': 'Generated by tools_manifest.py from vt/registry.py. The quick commands take 5 s - 4 min each on 16 cores and a few GB of '
+                 'memory; a thorough command takes 1 - 20 min and up to about 35 GB (the harness holds the recorded traces, up to '
+                 'eight validating JVMs of 3g run side by side): run the thorough commands one at a time on a 64 GB machine.',
     }
